@@ -32,22 +32,41 @@ import (
 var probeRealms = []string{"", "\x01", "\x01\xff", "\x01", "\x02", ""}
 
 // genProbePlan: header + one line per call: `x p <goroutine> <view> <kind> <hexkey>`; the key is relative to the view.
-func genProbePlan(rng *hx.Rng, wrap, g, perG, rounds int) []string {
+// batchOnly: every goroutine hammers the ONE shared batch object of its home view (Set / Delete / Commit / Cancel and a rare Get):
+// the batch mutex is then (nearly) the only synchronisation between them, so an access to the batch's private maps outside
+// it is not ordered by anything else - what the race detector needs to see it.
+func genProbePlan(rng *hx.Rng, wrap, g, perG, rounds int, batchOnly bool) []string {
 	// every goroutine keeps to ONE view object for most of its calls (a lock that protects only "its" view is then not
 	// enough to protect the map); the goroutines are spread over `homes` of the six objects: with 1..3 homes many goroutines
 	// use the SAME object at the same time (whatever a view keeps per object besides its lock is then shared by them)
 	homes := hx.Pick(rng, []int{1, 2, 3, len(probeRealms), len(probeRealms)})
+	if batchOnly {
+		homes = rng.Range(1, 2)
+	}
 	first := rng.Intn(len(probeRealms))
-	plan := []string{fmt.Sprintf("x probe wrap=%d goroutines=%d rounds=%d homes=%d", wrap, g, rounds, homes)}
+	plan := []string{fmt.Sprintf("x probe wrap=%d goroutines=%d rounds=%d homes=%d batchonly=%v", wrap, g, rounds, homes, batchOnly)}
 	for i := 0; i < g; i++ {
 		home := (first + i%homes) % len(probeRealms)
 		for j := 0; j < perG; j++ {
 			view := home
-			if rng.Chance(1, 5) {
+			if rng.Chance(1, 5) && !batchOnly {
 				view = rng.Intn(len(probeRealms))
 			}
 			var kind string
 			switch x := rng.Intn(100); {
+			case batchOnly:
+				switch {
+				case x < 40:
+					kind = "bset"
+				case x < 55:
+					kind = "bdel"
+				case x < 80:
+					kind = "bcommit"
+				case x < 95:
+					kind = "bcancel"
+				default:
+					kind = "get"
+				}
 			case x < 22:
 				kind = "has"
 			case x < 40:
@@ -251,6 +270,17 @@ func runProbe(r *hx.Run, sub uint64, plan []string, no int) (bool, string) {
 		r.Count("probe-skipped-no-executable")
 
 		return false, ""
+	}
+	if len(plan) > 0 && strings.Contains(plan[0], " race=1") {
+		// a plan for the race-detector build of this harness (quick tier: built next to the plain one by checks/c05.py)
+		rb := os.Getenv("C05_RACE_BIN")
+		if rb == "" {
+			r.Count("probe-skipped-no-race-binary")
+
+			return false, ""
+		}
+		self = rb
+		r.Count("probe-children-race-build")
 	}
 	pf := fmt.Sprintf("%s/probe-plan-%d.txt", r.OutDir, no)
 	if err := os.WriteFile(pf, []byte(strings.Join(plan, "\n")+"\n"), 0o644); err != nil {
